@@ -2545,6 +2545,9 @@ class Engine:
             self.oblige('decreases', 'recursive call decreases [{}]'.format(c['decreases']),
                         z3.And(toz(d_call) >= 0, toz(d_call) < toz(d_top)), node.lineno, decisive=False)
         old = {k: self.snapshot(v) for k, v in env.items()}
+        for pn, ty in c.get('params', {}).items():
+            if ty == 'sink' and isinstance(env.get(pn), VSink):
+                env[pn].trace = self.fresh('{}_trace'.format(pn), specs.CSeq)       # a stream handed to a callee: written by it
         # exceptional exits
         for exc, cond in c.get('raises', {}).items():
             if cond is None:
@@ -2599,6 +2602,11 @@ class Engine:
         or a formatted piece identified by its template and integer arguments"""
         import re
         prefix = self.frames[0]['contract'].get('trace', {}).get('comment')
+        if self.frames[0]['contract'].get('trace', {}).get('opaque'):
+            # writers without a comment syntax: text whose content is not looked into is one opaque event
+            if isinstance(x, VOpaque) or (isinstance(x, str) and x.startswith('<')) or (isinstance(x, VFmt) and x.joined is None
+                                                                                       and not x.split and any(a is None for a in x.args)):
+                return specs.evopaque
         if isinstance(x, VRowText):
             return specs.evrow(z3.IntVal(template_id('row:{}[{}]{}'.format(x.prefix, x.sep, x.suffix))), x.clause)
         if isinstance(x, str) and not x.startswith('<'):
@@ -2766,6 +2774,8 @@ class Engine:
         if isinstance(o, VOpaque):
             if meth in ('append',):
                 return None
+            if meth in ('replace', 'strip', 'format', 'encode', 'decode', 'lower', 'upper'):
+                return VOpaque('text derived from ' + o.what)        # string processing of unmodelled text
             if meth == 'readlines' and o.what == 'textfile':
                 return lm_readlines(self, node, o)
             raise Unsupported('method {} on opaque value {}'.format(meth, o.what))
@@ -2822,7 +2832,7 @@ class Engine:
             return '<formatted>'
         if isinstance(o, str) and meth == 'join':
             return '<joined>'
-        if isinstance(o, str) and meth in ('strip', 'lower', 'upper'):
+        if isinstance(o, str) and meth in ('strip', 'lower', 'upper', 'replace'):
             return '<str>'
         raise Unsupported('method {} of {!r} (line {})'.format(meth, o, node.lineno))
 
@@ -3054,6 +3064,7 @@ def sf_evrowt(eng, node, prefix, sep, suffix, clause):
 
 
 SPEC_FUNCS = {
+    'evopaque': lambda eng, node: VSeq(specs.evopaque), 'opq': _wrap(specs.opq), 'wid': _wrap(specs.wid),
     'ysign': _wrap(specs.ysign), 'ydom': _wrap(specs.ydom),
     'psat': _wrap(specs.psat), 'valid1': _wrap(specs.valid1), 'cvalid': _wrap(specs.cvalid), 'cdistinct': _wrap(specs.cdistinct),
     'cmem': _wrap(specs.cmem), 'csubsel': _wrap(specs.csubsel),
